@@ -6,6 +6,15 @@ use mcx::{Ctx, Tier};
 
 mod util;
 
+mod battery;
+mod faults;
+mod isolate;
+mod synth;
+
+#[global_allocator]
+static GLOBAL: isolate::Counting = isolate::Counting;
+
+mod c01;
 mod c03;
 mod c06;
 mod c10;
@@ -24,6 +33,7 @@ struct Check {
 
 fn checks() -> Vec<Check> {
     vec![
+        Check { id: "C01", level: "fault_enumeration", run: c01::run, replay: Some(c01::replay) },
         Check { id: "C03", level: "model_checking", run: c03::run, replay: Some(c03::replay) },
         Check { id: "C06", level: "model_checking", run: c06::run, replay: Some(c06::replay) },
         Check { id: "C10", level: "model_checking", run: c10::run, replay: Some(c10::replay) },
@@ -82,6 +92,9 @@ fn main() {
                     std::process::exit(2);
                 }
             }
+        }
+        "c01-worker" => {
+            c01::worker(&args[2..]);
         }
         "c03-pure-child" => {
             c03::pure_child();
